@@ -94,6 +94,26 @@ fn main() {
             let code = ctx.finish_replay(&path);
             std::process::exit(code);
         }
+        "power" => {
+            // verif power <C01|C02> [--tier quick|thorough] [--seed N] [--max K] : planted-defect audit of the law checks
+            let prop = args.get(2).cloned().unwrap_or_else(|| "C01".into());
+            let get = |k: &str| args.iter().position(|a| a == k).and_then(|i| args.get(i + 1)).cloned();
+            let tier = get("--tier").unwrap_or_else(|| "quick".into());
+            let seed: u64 = get("--seed").and_then(|s| s.parse().ok()).unwrap_or(0);
+            let maxk: usize = get("--max").and_then(|s| s.parse().ok()).unwrap_or(40);
+            report::quiet_panics();
+            let t0 = std::time::Instant::now();
+            let (table, weak) = vcore::power::run(&prop, &tier, seed, maxk);
+            let dir = format!("{}/power", std::env::var("VERIF_DIR").unwrap_or_else(|_| "/verif".into()));
+            let _ = std::fs::create_dir_all(&dir);
+            let path = format!("{dir}/{prop}.{tier}.json");
+            std::fs::write(&path, serde_json::to_string_pretty(&table).unwrap()).expect("write power table");
+            for (k, r) in table["rows"].as_object().unwrap() {
+                println!("{:28} cells={:4} nontrivial={:4} mass {}/{} scale {}/{} off1 {}/{}", k, r["cells"], r["nontrivial"], r["mass_defect_detected"], r["mass_defect_run"], r["scale_defect_detected"], r["scale_defect_run"], r["off_by_one_detected"], r["off_by_one_run"]);
+            }
+            println!("power {prop} {tier}: rows below 90%: {weak}; table {path}; wall={:.1}s", t0.elapsed().as_secs_f64());
+            std::process::exit(if weak == 0 { 0 } else { 2 });
+        }
         "probe" => {
             // development aid: words consumed with a forced word, over seeds
             let cell: families::Cell = serde_json::from_str(&args[2]).expect("cell json");
